@@ -381,7 +381,9 @@ impl Engine {
                 }
                 let n = self.cmd_spawns[cb];
                 self.cmd_spawns[cb] = 0;
-                let before: std::collections::HashSet<u64> = self.worlds[w].as_ref().unwrap().iter().map(|e| e.entity().to_bits().into()).collect();
+                let mut before: std::collections::HashSet<u64> = self.worlds[w].as_ref().unwrap().iter().map(|e| e.entity().to_bits().into()).collect();
+                // reservations that the run flushes into real entities were not spawned by it
+                before.extend(self.shadow[w].reserved.iter().copied());
                 let world = self.worlds[w].as_mut().unwrap();
                 let buf = &mut self.cmd[cb];
                 let res = catch_unwind(AssertUnwindSafe(|| buf.run_on(world)));
@@ -463,7 +465,8 @@ impl Engine {
         for e in world.iter() {
             ents.insert(e.entity().to_bits().into(), self.read_entity(w, e.entity()).into_iter().collect());
         }
+        // an empty buffer does not flush: reservations that are still outstanding stay reserved
+        self.shadow[w].reserved.retain(|b| !ents.contains_key(b));
         self.shadow[w].ents = ents;
-        self.shadow[w].reserved.clear();
     }
 }
